@@ -825,6 +825,10 @@ def minimise(spec, key, still_fails, deadline):
     return spec
 
 
+def spec_for(prop, tier, seed, index):
+    return _c11_gen(seed, tier, index) if prop == 'C11' else _c09_gen(seed, tier, index)
+
+
 def describe(prop):
     if prop == 'C11':
         return dict(
